@@ -6,7 +6,7 @@ from vlib import chainspace as cs
 
 LEVEL = "exploration"
 RULE = ("Bounded-exhaustive: every sequence of length 0..N over link kinds {await coroutine, await types.coroutine "
-        "generator, __await__ returning a coroutine wrapper, __await__ running a delegating generator, asend, __anext__, "
+        "generator, __await__ returning a coroutine wrapper, __await__ running a delegating generator, asend(None), asend(<an async generator object>), __anext__, "
         "async for, athrow, aclose} x terminal {trap, plain-iterator leaf, falsy future-like leaf that is its own iterator} x outer kind {coroutine, generator-based "
         "coroutine} x {links suspend first themselves, or not}; plus pure yield-from generator chains; every suspension "
         "point k of each (chain rebuilt and advanced k steps), plus the exhausted state. Oracle: frames and line numbers of "
